@@ -140,7 +140,32 @@ def field_widths(idx: Index) -> dict[str, dict[str, int]]:
     return out
 
 
+def int_const(e: ast.AST, consts: dict[str, ast.AST], depth: int = 0):
+    """value of an integer constant expression over literals and names bound once at module level"""
+    if isinstance(e, ast.Constant) and isinstance(e.value, int) and not isinstance(e.value, bool):
+        return e.value
+    if isinstance(e, ast.Name) and e.id in consts and depth < 6:
+        return int_const(consts[e.id], consts, depth + 1)
+    if isinstance(e, ast.BinOp):
+        a, b = int_const(e.left, consts, depth + 1), int_const(e.right, consts, depth + 1)
+        if a is None or b is None:
+            return None
+        ops = {ast.Add: lambda: a + b, ast.Sub: lambda: a - b, ast.Mult: lambda: a * b,
+               ast.LShift: lambda: a << b if 0 <= b < 128 else None, ast.RShift: lambda: a >> b if b >= 0 else None,
+               ast.BitOr: lambda: a | b, ast.BitAnd: lambda: a & b, ast.Pow: lambda: a ** b if 0 <= b < 128 else None}
+        f = ops.get(type(e.op))
+        return f() if f else None
+    return None
+
+
 def bounded(e: ast.AST, bits: int, env: dict[str, ast.AST]) -> tuple[bool, str]:
+    consts = env.get('@consts', {})
+    if isinstance(e, ast.Name) and e.id not in env and int_const(e, consts) is not None:
+        e = ast.Constant(value=int_const(e, consts))
+    if isinstance(e, ast.BinOp) and isinstance(e.op, (ast.BitAnd, ast.Mod)):
+        l_, r_ = int_const(e.left, consts), int_const(e.right, consts)
+        e = ast.BinOp(left=e.left if l_ is None else ast.Constant(value=l_), op=e.op,
+                      right=e.right if r_ is None else ast.Constant(value=r_))
     if isinstance(e, ast.Constant):
         if isinstance(e.value, bool) or (isinstance(e.value, int) and 0 <= e.value < (1 << bits)):
             return True, 'constant'
@@ -195,6 +220,14 @@ def r14_2(rep: Report, idx: Index) -> None:
         elif isinstance(n, ast.AugAssign) and isinstance(n.target, ast.Name):
             env.setdefault(n.target.id, []).append(
                 ast.BinOp(left=ast.Name(id=n.target.id + "'", ctx=ast.Load()), op=n.op, right=n.value))
+    # integer constants of the module (PTS_MASK = (1 << 33) - 1), bound exactly once
+    mod_assigns: dict[str, list[ast.AST]] = {}
+    for n in tree.body:
+        if isinstance(n, (ast.Assign, ast.AnnAssign)) and getattr(n, 'value', None) is not None:
+            for t in (n.targets if isinstance(n, ast.Assign) else [n.target]):
+                if isinstance(t, ast.Name):
+                    mod_assigns.setdefault(t.id, []).append(n.value)
+    consts14 = {k: v[0] for k, v in mod_assigns.items() if len(v) == 1 and k not in env}
     # x &= mask after x = ...: the masked definition is the one that reaches the use
     for name, defs in list(env.items()):
         masked = [d for d in defs if isinstance(d, ast.BinOp) and isinstance(d.op, ast.BitAnd)
@@ -229,7 +262,7 @@ def r14_2(rep: Report, idx: Index) -> None:
         if bits is None:
             return
         n_checked += 1
-        ok, why = bounded(val, bits, env)
+        ok, why = bounded(val, bits, {**env, '@consts': consts14})
         key = f'{cname}.{field}:{bits}b'
         if ok:
             rep.ok(rid, construct, key, why)
@@ -273,6 +306,25 @@ def r14_3(rep: Report, idx: Index) -> None:
     if not per_version.get('0') or not per_version.get('1'):
         raise AnalysisError('EventMessageBox version branches not recognised')
     found = 0
+    # the value of every local where the delta is computed, per path (the segment start may be built
+    # in one step or by reassigning one name)
+    from ..flow import Disjunctive, Flow
+    from ..pathcond import PathCond, sym_values
+    _upd, _resolve = sym_values(max_len=400)
+    delta_states: dict[int, list] = {}
+
+    def _on(st, states):
+        if isinstance(st, ast.Assign) and isinstance(st.targets[0], ast.Subscript) \
+                and isinstance(st.targets[0].slice, ast.Constant) \
+                and st.targets[0].slice.value == 'presentation_time_delta':
+            delta_states.setdefault(id(st), []).extend(states)
+    Flow(Disjunctive(PathCond(upd=_upd), cap=256), on_stmt=_on).run(fn, [PathCond.initial()])
+    loop_vars = set()
+    for l in ast.walk(fn):
+        if isinstance(l, ast.While) and any(isinstance(x, ast.Call) and (call_name(x) or '').endswith('EventMessageBox')
+                                            for x in ast.walk(l)):
+            tests = l.test.values if isinstance(l.test, ast.BoolOp) and isinstance(l.test.op, ast.And) else [l.test]
+            loop_vars |= {norm(t_.left) for t_ in tests if isinstance(t_, ast.Compare)}
     for n in ast.walk(fn):
         if isinstance(n, ast.If) and re.search(r"version'?\]? == 0|version == 0", norm(n.test)):
             found += 1
@@ -295,7 +347,23 @@ def r14_3(rep: Report, idx: Index) -> None:
                             and isinstance(s.targets[0].slice, ast.Constant) \
                             and s.targets[0].slice.value == 'presentation_time_delta':
                         val = norm(subst_locals(fn, s.value))
-                        if val == 'presentation_time - seg_start':
+                        # (event time of the scheduling loop) - (start of the segment in the event timebase)
+                        dv = s.value
+                        for _ in range(4):          # a local that only names the difference
+                            defs = [a_.value for a_ in ast.walk(fn) if isinstance(a_, ast.Assign)
+                                    and isinstance(dv, ast.Name) and norm(a_.targets[0]) == dv.id]
+                            if len(defs) != 1:
+                                break
+                            dv = defs[0]
+                        good = isinstance(dv, ast.BinOp) and isinstance(dv.op, ast.Sub) \
+                            and norm(dv.left) in loop_vars and bool(delta_states.get(id(s)))
+                        for state in delta_states.get(id(s), []):
+                            base = norm(_resolve(state, dv.right)) if good else ''
+                            if not re.fullmatch(r'\(?[\w.]*base_media_decode_time \* self\.timescale\)? // '
+                                                r'representation\.timescale', base):
+                                good = False
+                                val = f'{norm(dv.left)} - ({base})' if base else val
+                        if good:
                             rep.ok(rid, construct, 'v0 delta = presentation_time - seg_start')
                         else:
                             rep.fail(rid, construct, 'v0 delta = presentation_time - seg_start',
